@@ -4,7 +4,7 @@ from .. import gen, elect, refstv
 from ..common import Names, rat
 
 PROP = "C01"
-LEAN_MODULE = "VK.Props.C01Dictator"
+LEAN_MODULE = "VK.Props.C01Veto"
 THEOREMS = [
     "VK.C01_topM_two_states",
     "VK.stvStep_inv",
@@ -31,6 +31,14 @@ THEOREMS = [
     "VK.dictatorPick_mem",
     "VK.C01_random_dictator_partition",
     "VK.C01_boosted_partition",
+    "VK.vetoLoop_struck",
+    "VK.fpv_pos_atTop",
+    "VK.pvWF_remove",
+    "VK.candsCast_scoreProfile",
+    "VK.pvRound_inv",
+    "VK.pvLoop_spec",
+    "VK.C01_veto_exactly_m_and_partition",
+    "VK.C01_veto_loops_at",
 ]
 RULE = ("cases = rule (18 classes) x random valid profile (1-6 candidates incl. zero-vote ones, 0-10 ballots, partial "
         "ballots, tied positions where the rule allows them, unit/int/rational weights; score ballots within limits for "
@@ -38,8 +46,10 @@ RULE = ("cases = rule (18 classes) x random valid profile (1-6 candidates incl. 
         "bullet votes (exhausting), hare quota, m = n, single candidate, no ballots; non-trivial = at least one ballot and "
         "two candidates; distinct = distinct (rule, configuration, profile, seed)")
 TRUSTED = ["modelled, not verified: int() on a non-negative Fraction (= floor); random.sample/random.choices/"
-           "numpy.random.choice/random.uniform (oracle argument of the model); PluralityVeto is monitored on the "
-           "implementation only (its model is not part of this check)"]
+           "numpy.random.choice/random.uniform/numpy.random.shuffle (oracle arguments of the model: PluralityVeto's processing "
+           "order is the recorded shuffle, its tie orders the stream of recorded random.sample results, each of which the "
+           "model must ask for and none may be left over); PluralityVeto's endless loop (finding F-C01-f) is the model's "
+           "outOfFuel and the implementation's CPU-time alarm - the two must coincide"]
 ASSUMPTIONS = ["positive weights; declared candidates include every cast candidate; TopTwo needs >= 2 candidates; "
                "Alaska needs m_1 <= number of candidates"]
 EXPLANATION = ("Theorem: the STV/IRV/SequentialRCV/Alaska count loop never runs out of fuel (termination) for every "
@@ -47,7 +57,8 @@ EXPLANATION = ("Theorem: the STV/IRV/SequentialRCV/Alaska count loop never runs 
                "exception class) against the Lean model with the oracle taken from the recorded tiebreaks and the "
                "wrapped random primitives. Monitors (model-independent): winner count, partition at every round, "
                "monotone status, ValueError only with tiebreak=None and a tie across the seat boundary (reference "
-               "count), no other exception, alarm for non-termination after 4 s of the process's own CPU time (wall-clock backstop 240 s).")
+               "count), no other exception (PluralityVeto's documented AttributeError for tied ballots without a tiebreak is a "
+               "rejection of the profile, not an escape), alarm for non-termination after 4 s of the process's own CPU time (wall-clock backstop 240 s).")
 
 N_QUICK, N_THOROUGH = 2400, 86400
 
